@@ -92,9 +92,11 @@ int main(int argc, char *argv[]) {
       }
     }
     std::vector<util::StringPiece>::const_iterator i = target_words.begin();
-    if (i != target_words.end()) out << *i;
-    for (++i; i != target_words.end(); ++i) {
-      out << ' ' << *i;
+    if (i != target_words.end()) {
+      out << *i;
+      for (++i; i != target_words.end(); ++i) {
+        out << ' ' << *i;
+      }
     }
     out << '\n';
   }
